@@ -72,7 +72,12 @@ func canonKey(k value) (any, bool) {
 	return k, true
 }
 
-func (m *gomap) len() int { return m.n }
+func (m *gomap) len() int {
+	if m == nil {
+		return 0
+	}
+	return m.n
+}
 
 // lookupEntry finds the entry for key k. With symbolic keys it forks.
 func (m *gomap) lookupEntry(fr *frame, k value) *mapEntry {
